@@ -24,6 +24,7 @@ import json
 import time
 from props import purelib
 from props import c04hist
+from props import c04obo
 
 DOM = 7           # low, hi in 0..6 for the exhaustive part
 ALL = [(l, h) for l in range(DOM) for h in range(DOM)]
@@ -314,6 +315,23 @@ TRUSTED2 = [
     "model scope: one group topic (non-channel: 'author withheld from channel readers' is not covered), LevelAuth users, timestamps not compared, one topic per history (the store holds the topics of all histories of the run, so a cross-topic leak would show as a foreign message)",
 ]
 
+RULE3 = ("layer 2, requests on behalf of another user: seeded histories over one group topic, 3-4 users (35%: the last user is a pure "
+         "administrator without a subscription) x 1-2 ordinary sessions + 1-2 ROOT sessions; members from the layer-2 mode "
+         "populations; every root session attaches with extra.obo (itself or a member; re-attaches as another user after a leave); "
+         "3-6 initial publishes (30% by a root session on behalf of a member) then 8-20 steps: delete by an ordinary session (14%), by a "
+         "root session on behalf of a member or of itself (18%) or as its own user (5%), READ GROUPS (33%: the same get data / get del "
+         "query sent by each root session on behalf of user u, by u's own sessions, by the root session as itself, on behalf of another "
+         "user or of a stranger, in random order), extra.obo from an ordinary session (4%, all six request kinds) and malformed extra.obo "
+         "from a root session (2%), publishes, permission edits, root re-attachment, leave/unsub/re-attach, restart; every history ends "
+         "with every member's history and deletion log read through the root session on his behalf and through his own sessions; 12% of "
+         "the histories with single failing/crashing store calls; non-trivial = at least one delete accepted on behalf of another user")
+TRUSTED3 = [
+    "harness/overlay/server/zz_verif_c04x_test.go (TestVerifC04Obo): the topic-history driver with sessions at auth.LevelRoot and the extra.obo member added to the JSON of sub / leave / pub / get data / get del / del msg; after a restart the root flag is put back on the re-created sessions at quiescence",
+    "harness/runner/r_c04obo.ml: runs the extracted ostep_f_c04 (Sys/TopicOboC04.v) on the same lines; a request outside the modelled fragment prints UNMODELLED and the history counts up to that request only",
+    "tools/props/c04obo.py: acting user of a request (python restatement of dispatch_as_c04), the layer-2 monitor evaluated with the acting user, the laws obo-needs-root / obo-malformed / obo-same-as-own-session",
+    "model scope (obo): a root session's {sub} without extra.obo (level root selects another default access), its {note}/{get desc}/{get sub}/{set sub}/{del sub}, and {leave} on behalf of a user other than the one the session is attached as are outside the model (explicit None) and not generated; cluster proxy (multiplexing) sessions are not modelled or run",
+]
+
 
 def run(ctx):
     if ctx.replay:
@@ -327,6 +345,19 @@ def run(ctx):
             if not ok:
                 ctx.violation("proof", "extraction-broken", "model extraction/runner build failed: " + out[-1500:],
                               {"theorem_or_obligation": "extraction of the model"})
+                ctx.finish()
+            if rp["replay"].get("part") == "obo" or any("@" in str(o[1]) for o in rp["replay"].get("ops", [])) \
+                    or any(l.split()[0] == "sess" and l.split()[-1] == "r" for l in rp["replay"]["head"]):
+                # a history with root sessions / requests on behalf of another user
+                ok, out = ctx.build_main()
+                if not ok:
+                    ctx.violation("corr", "harness-build-broken", "package-main driver no longer builds against /repo: " + out[-1500:],
+                                  {"correspondence": "build of harness/overlay against /repo/server"})
+                    ctx.finish()
+                cov = c04obo.run_obo(ctx)
+                ctx.coverage.update(cov)
+                ctx.coverage["rule"] = RULE3
+                ctx.coverage["trusted_base"] = TRUSTED2 + TRUSTED3
                 ctx.finish()
             cov = c04hist.run_layer2(ctx)
             ctx.coverage.update(cov)
@@ -350,8 +381,12 @@ def run(ctx):
     l1 = dict(ctx.coverage)
     t1 = time.time()
     cov2 = c04hist.run_layer2(ctx)
+    t2 = time.time()
+    cov3 = c04obo.run_obo(ctx) if cov2 else {}
+    if cov3:
+        cov3["wall_s"] = round(time.time() - t2, 1)
     if cov2:
-        cov2["wall_s"] = round(time.time() - t1, 1)
+        cov2["wall_s"] = round(t2 - t1, 1)
         ctx.coverage["layer1"] = {k: l1[k] for k in ("evaluations", "distinct_nontrivial", "rule", "samples", "traces_validated_against_impl",
                                                      "correspondence_mismatches", "monitor_failures", "search_pool", "input_distribution") if k in l1}
         ctx.coverage["layer2"] = dict(cov2, rule=RULE2)
@@ -364,6 +399,12 @@ def run(ctx):
         ctx.coverage["trusted_base"] = l1.get("trusted_base", []) + TRUSTED2
         for k in ("samples", "input_distribution", "search_pool"):
             ctx.coverage.pop(k, None)
+        if cov3:
+            ctx.coverage["layer2_obo"] = dict(cov3, rule=RULE3)
+            for k in ("evaluations", "distinct_nontrivial", "traces_validated_against_impl", "correspondence_mismatches", "monitor_failures"):
+                ctx.coverage[k] = ctx.coverage.get(k, 0) + cov3.get(k, 0)
+            ctx.coverage["rule"] += " || " + RULE3
+            ctx.coverage["trusted_base"] = ctx.coverage["trusted_base"] + TRUSTED3
     ctx.finish()
 
 
